@@ -9,11 +9,11 @@ LEVEL_TEXT = ("Lean theorems (Props/C08.lean): the model reader recovers exactly
               "the same blocks. Tie: tapes from a Python twin of the writer (byte-identical to Lean's render) through the real "
               "list/extract versus the model and the abstract files.")
 
-PRINTABLE = "ABCDEFGHIJKLMNOPQRSTUVWXYZabcdefghijklmnopqrstuvwxyz0123456789_-+!#$%&@~ .,'()"
+PRINTABLE = "ABCDEFGHIJKLMNOPQRSTUVWXYZabcdefghijklmnopqrstuvwxyz0123456789_-+!#$%&@~ .,'()" + '\\:"*?<>|;=[]{}^`'     # every printable but '/' 
 
 
 def gen_gap(rng):
-    k = rng.choice([0, 0, 1, 7, 50, 300])
+    k = rng.choice([0, 0, 1, 7, 50, 300]) if rng.random() < 0.97 else rng.choice([4095, 4096, 5000, 20000, 70000])    # "idle gaps of any length": minutes of silence
     r = rng.random()
     if r < 0.3:
         return bytes(k)
@@ -32,10 +32,12 @@ def gen_tape(rng):
     for _ in range(nfiles):
         for _ in range(50):
             name = "".join(rng.choice(PRINTABLE) for _ in range(rng.choice([1, 3, 8]))).strip()
-            ext = "".join(rng.choice(PRINTABLE[:62]) for _ in range(rng.choice([0, 1, 3])))
-            if name and name not in (".",) and (name, ext) not in used and not name.startswith("."):
+            ext = "".join(rng.choice(PRINTABLE[:62] + "_-+!#$%&@~,'()") for _ in range(rng.choice([0, 1, 2, 3])))
+            if len(ext) < 3 and rng.random() < 0.12:
+                ext = " " * rng.choice([1, 3 - len(ext)]) + ext      # blanks in front of the extension are padding like those behind it
+            if name and name not in (".",) and (name, ext.strip()) not in used and not name.startswith("."):
                 break
-        used.add((name, ext))
+        used.add((name, ext.strip()))
         if len(name) < 7 and rng.random() < 0.15:
             name = " " * rng.choice([1, 2]) + name[:6]      # blanks in front of a name are not part of it (the reader strips both ends)
             if (name.strip(), ext) in used and name.strip() != name[:0]:
@@ -44,7 +46,7 @@ def gen_tape(rng):
         kind = rng.choice([0, 0, 1, 2, 2, 3, 200])
         mode = rng.choice([0, 0xFFFF, 0x1234, 255])
         content = b""
-        lead = rng.choice([3, 3, 4, 16, 17, 64])
+        lead = rng.choice([3, 3, 4, 16, 17, 64]) if rng.random() < 0.97 else rng.choice([4096, 6000, 30000])    # a leader tone of any length
         payload = (name + " " * 8)[:8].encode() + (ext + " " * 3)[:3].encode() + bytes([kind, mode >> 8, mode & 255])
         blocks.append((lead, 0, payload, gen_gap(rng)))
         for _ in range(rng.choice([0, 1, 2, 3, 9])):
@@ -68,8 +70,10 @@ def gen_big_tape(rng, total):
         name, ext = "BIG%04d" % k, rng.choice(["BIN", "DAT", "BAS"])
         content = b""
         blocks.append((rng.choice([3, 16]), 0, (name + " " * 8)[:8].encode() + ext.encode() + bytes([2, 0, 0]), b""))
-        for _ in range(rng.choice([1, 4, 12])):
-            p = T.content_for(rng, rng.choice([254, 254, 100, 1]))
+        # one member far beyond 64 KiB (300 to 1000 blocks) on the longest tapes
+        huge = k == 1 and total >= 100000
+        for _ in range(rng.choice([1, 4, 12]) if not huge else rng.choice([300, 520])):
+            p = T.content_for(rng, rng.choice([254, 254, 100, 1]) if not huge else 254)
             content += p
             blocks.append((rng.choice([3, 16]), 1, p, gen_gap(rng) if rng.random() < 0.2 else b""))
             size += 20 + len(p)
@@ -165,7 +169,7 @@ def one_case(ctx, res, stream, files, pre, blocks, pad):
             nb += 1
             bi += 1
         bi += 1
-        if parts[3:] != [f"#{first}", f"{len(c)} octets", f"{nb} blocks."]:
+        if not T.tape_facts_ok(parts[3:], first, len(c), nb):
             res.violate(stream, "verbose sizes / block counts / positions are wrong", case, {"line": line, "want": [first, len(c), nb]}, {"clause": "verbose_facts"})
 
 
